@@ -155,21 +155,24 @@ def worker(sh):
         c = (sh.index // 2) % 2
         fbs = (0, 1) if sh.index < 4 else (2, 255)
         maxlen = sh.pick(3000, 20000)
-        sweep = ['lens %s %d %d %d' % (kind, c, fb, maxlen) for fb in fbs]
+        # ranges: every length from 1, and the neighbourhoods of 2^16 and 2^17 (where a 16-bit length or count would wrap)
+        ranges = [(1, maxlen), (65380, 65700), (131000, 131150)] if sh.index < 4 else [(1, maxlen)]
         for cfg in ('san', 'guard-end'):
-            so = sh.run(cfg, sweep)
-            for fb, out in zip(fbs, so):
-                if out is None:
-                    continue
-                vals = out[-1].split(',')
-                for n, v in enumerate(vals, start=1):
-                    exp = expected_setlen(kind, bytes([fb]) + bytes(n - 1), c)
-                    if v != str(exp):
-                        sh.violation('buffer:%s:length-discovery' % kind, 'length discovery on a %d-byte buffer with first byte %d (%s) returned %s, the format implies %d [%s]'
-                                     % (n, fb, 'compressed' if c else 'uncompressed', v, exp, cfg), {'line': 'lens %s %d %d %d' % (kind, c, fb, n), 'config': cfg})
-                        break
-                if cfg == 'san':
-                    sh.event('length-discovery-sweep:%s' % kind, '%s/firstbyte%d' % ('c' if c else 'u', fb), n=len(vals))
+            for lo, hi in ranges:
+                sweep = ['lens %s %d %d %d %d' % (kind, c, fb, hi, lo) for fb in fbs]
+                so = sh.run(cfg, sweep)
+                for fb, out in zip(fbs, so):
+                    if out is None:
+                        continue
+                    vals = out[-1].split(',')
+                    for n, v in enumerate(vals, start=lo):
+                        exp = expected_setlen(kind, bytes([fb]) + bytes(n - 1), c)
+                        if v != str(exp):
+                            sh.violation('buffer:%s:length-discovery' % kind, 'length discovery on a %d-byte buffer with first byte %d (%s) returned %s, the format implies %d [%s]'
+                                         % (n, fb, 'compressed' if c else 'uncompressed', v, exp, cfg), {'line': 'lens %s %d %d %d %d' % (kind, c, fb, n, n), 'config': cfg})
+                            break
+                    if cfg == 'san':
+                        sh.event('length-discovery-sweep:%s' % kind, '%s/firstbyte%d%s' % ('c' if c else 'u', fb, '' if lo == 1 else '/around-2^%d' % (16 if lo < 100000 else 17)), n=len(vals))
     # every prefix of small valid params / secret keys (first byte = signature flag as marshalled)
     if 8 <= sh.index < 12 and valid:
         small = sorted([v for v in valid if v[0] in ('wparams', 'wsk')], key=lambda v: len(v[2]))[:4 if sh.quick else 12]
@@ -350,7 +353,7 @@ def run(ctx):
     ctx.extra['buffer_configs'] = cfgs
     ctx.extra['sanitizer_configs'] = san_cfgs
     ctx.assumptions = ['ASan sees heap/stack/global red zones only (intra-object overruns: C08 cursor monitor, C06 guard words)', 'Go bindings themselves are not executed; their allocation protocol is reproduced in C']
-    need = ['length-discovery-sweep:wparams|c/firstbyte1', 'length-discovery-sweep:wsk|u/firstbyte1', 'length-discovery-sweep:wsk|c/firstbyte255', 'unmarshal:wsk|every-prefix', 'unmarshal:wparams|truncated', 'unmarshal:wsk|truncated', 'unmarshal:wsk|extended', 'unmarshal:wparams|valid/accepted', 'unmarshal:wsk|valid/accepted', 'unmarshal:wsk|first-byte-0', 'unmarshal:wparams|identity-element/accepted', 'unmarshal:wsk|identity-element', 'unmarshal:wsk|valid-misaligned/accepted', 'unmarshal:lid|valid-misaligned',
+    need = ['length-discovery-sweep:wparams|c/firstbyte1', 'length-discovery-sweep:wsk|u/firstbyte1', 'length-discovery-sweep:wsk|c/firstbyte255', 'length-discovery-sweep:wparams|c/firstbyte1/around-2^16', 'length-discovery-sweep:wsk|u/firstbyte1/around-2^16', 'unmarshal:wsk|every-prefix', 'unmarshal:wparams|truncated', 'unmarshal:wsk|truncated', 'unmarshal:wsk|extended', 'unmarshal:wparams|valid/accepted', 'unmarshal:wsk|valid/accepted', 'unmarshal:wsk|first-byte-0', 'unmarshal:wparams|identity-element/accepted', 'unmarshal:wsk|identity-element', 'unmarshal:wsk|valid-misaligned/accepted', 'unmarshal:lid|valid-misaligned',
             'guard-page:field-group-pairing|completed', 'guard-page:directed-vectors|guard-end/x86-baseline', 'guard-page:directed-vectors|guard-start/dispatch-default', 'memcheck-workload|C02', 'memcheck-workload|C11', 'memcheck-workload|C01', 'memcheck-workload|C17', 'memcheck-workload|C15', 'sanitized-workload:C11|san', 'sanitized-workload:C15|san', 'sanitized-workload:C02|san']
     for r in need:
         if not any(k.startswith(r) for k in ctx.classes):
